@@ -6,6 +6,8 @@ package main
 import (
 	"bufio"
 	"bytes"
+	"crypto"
+	"crypto/ecdsa"
 	"crypto/rand"
 	"crypto/rsa"
 	"crypto/sha256"
@@ -217,6 +219,27 @@ func buildChains06() error {
 	return nil
 }
 
+// a private key behind an opaque handle (hardware module, key service): the package sees Public(), Sign() and Decrypt() only,
+// and Public() hands out the key in the form a parsed certificate carries it (*ecdsa.PublicKey over the SM2 curve)
+type opaqueKey06 struct{ k *sm2.PrivateKey }
+
+func (o opaqueKey06) Public() crypto.PublicKey {
+	return &ecdsa.PublicKey{Curve: o.k.Curve, X: o.k.X, Y: o.k.Y}
+}
+func (o opaqueKey06) Sign(r io.Reader, digest []byte, opts crypto.SignerOpts) ([]byte, error) {
+	return o.k.Sign(r, digest, opts)
+}
+func (o opaqueKey06) Decrypt(r io.Reader, msg []byte, opts crypto.DecrypterOpts) ([]byte, error) {
+	return o.k.Decrypt(r, msg, opts)
+}
+
+func opaque06(c gmtls.Certificate) gmtls.Certificate {
+	if k, ok := c.PrivateKey.(*sm2.PrivateKey); ok {
+		c.PrivateKey = opaqueKey06{k}
+	}
+	return c
+}
+
 func c06Configs(c *c06Case) (cc, sc *gmtls.Config, err error) {
 	f, err := loadFixtures()
 	if err != nil {
@@ -234,6 +257,9 @@ func c06Configs(c *c06Case) (cc, sc *gmtls.Config, err error) {
 	switch c.Smode {
 	case "gm":
 		sc = &gmtls.Config{GMSupport: &gmtls.GMSupport{}, Certificates: []gmtls.Certificate{f.sig, f.enc}}
+		if c.Source == "opaque" {
+			sc.Certificates = []gmtls.Certificate{opaque06(f.sig), opaque06(f.enc)}
+		}
 	case "auto":
 		if c.Source == "static" {
 			gs := gmtls.NewGMSupport()
@@ -242,6 +268,9 @@ func c06Configs(c *c06Case) (cc, sc *gmtls.Config, err error) {
 			break
 		}
 		sig, enc, rsaC := f.sig, f.enc, f.rsa
+		if c.Source == "opaque" {
+			sig, enc = opaque06(sig), opaque06(enc)
+		}
 		if c.Source == "mixed" {
 			gs := gmtls.NewGMSupport()
 			gs.EnableMixMode()
